@@ -438,7 +438,9 @@ func learntFormOnly(a, b []byte) string {
 			if kind == "" {
 				kind = "flag"
 			}
-		case strings.HasPrefix(x, "/"+name+"=") && !strings.Contains(x, "\"") && y == "/"+name+"=\""+strings.TrimPrefix(x, "/"+name+"=")+"\"":
+		case strings.HasPrefix(x, "/"+name+"=") && !strings.HasPrefix(x, "/"+name+"=\"") &&
+			y == "/"+name+"=\""+strings.ReplaceAll(strings.TrimPrefix(x, "/"+name+"="), "\"", "\"\"")+"\"":
+			// the same value bare and between quotes (a quote inside it doubled)
 			kind = "literal"
 		default:
 			return ""
